@@ -425,6 +425,49 @@ def gen_float_case(rng, kind):
     return finish_case(rng, case)
 
 
+# ------------------------------------------------------------------ polygons without normals (oracle only)
+
+def gen_poly_case(rng):
+    """a polylist / polygons primitive WITHOUT normals whose polygons are in general skew (non-planar)
+    and concave: every Triangle handed out by Polygon.triangles(), by triangleset() and by the bound
+    forms must carry the unit right-hand normal of ITS OWN three vertices"""
+    nv = rng.randint(4, 9)
+    e = rng.choice([0, 0, 0, -40, -20, -7, 3, 12, 30])
+    sc = 2.0 ** e
+    verts = [[f32(rng.uniform(-4, 4)) * sc for _ in range(3)] for _ in range(nv)]
+    polys = [rng.sample(range(nv), rng.randint(3, min(6, nv))) for _ in range(rng.randint(1, 4))]
+    case = {'kind': 'poly', 'lattice': False, 'fverts': verts, 'polys': polys, 'tris': [p[:3] for p in polys],
+            'scale_exp': e, 'mode': rng.choice(['api', 'xml', 'bound-api', 'bound-xml']),
+            'element': rng.choice(['polylist', 'polylist', 'polygons']), 'inputs': {'VERTEX': 0}, 'nind': 1}
+    if case['mode'].startswith('bound'):
+        lin = rand_nonrigid3(rng) if rng.random() < 0.5 else None
+        if lin is None:
+            case['mat'], _ = rand_matrix(rng)
+        else:
+            case['mat'] = [x for r in range(3) for x in (lin[r] + [rng.randint(-3, 3)])]
+        for r in range(3):
+            case['mat'][4 * r + 3] = case['mat'][4 * r + 3] * sc
+    if case['mode'] in ('xml', 'bound-xml'):
+        flat = ' '.join(str(i) for p_ in polys for i in p_)
+        if case['element'] == 'polylist':
+            prim = ('<polylist count="%d" material="mat"><input semantic="VERTEX" source="#vtx" offset="0"/>'
+                    '<vcount>%s</vcount><p>%s</p></polylist>' % (len(polys), ' '.join(str(len(p_)) for p_ in polys), flat))
+        else:
+            prim = ('<polygons count="%d" material="mat"><input semantic="VERTEX" source="#vtx" offset="0"/>%s</polygons>'
+                    % (len(polys), ''.join('<p>%s</p>' % ' '.join(str(i) for i in p_) for p_ in polys)))
+        m = case.get('mat') or [1, 0, 0, 0, 0, 1, 0, 0, 0, 0, 1, 0]
+        mat = ' '.join(fmt(x) for x in (list(m) + [0, 0, 0, 1]))
+        case['xml'] = ('<?xml version="1.0" encoding="utf-8"?>\n<COLLADA xmlns="%s" version="1.4.1">'
+                       '<asset><created>2020-01-01T00:00:00Z</created><modified>2020-01-01T00:00:00Z</modified></asset>'
+                       '<library_geometries><geometry id="g" name="g"><mesh>%s<vertices id="vtx">'
+                       '<input semantic="POSITION" source="#vsrc"/></vertices>%s</mesh></geometry></library_geometries>'
+                       '<library_visual_scenes><visual_scene id="vs"><node id="n0"><matrix>%s</matrix>'
+                       '<instance_geometry url="#g"/></node></visual_scene></library_visual_scenes>'
+                       '<scene><instance_visual_scene url="#vs"/></scene></COLLADA>'
+                       % (NS, source_xml('vsrc', verts, 'XYZ'), prim, mat))
+    return case
+
+
 # ------------------------------------------------------------------ encoding
 
 def cz3(p):
@@ -537,12 +580,13 @@ def corpus_cases():
     return out
 
 
-def gen_batch(rng, n_lat_n, n_lat_t, n_flt_n, n_flt_t):
+def gen_batch(rng, n_lat_n, n_lat_t, n_flt_n, n_flt_t, n_poly=None):
     cases = []
     cases += [gen_lattice_normals(rng) for _ in range(n_lat_n)]
     cases += [gen_lattice_tangents(rng) for _ in range(n_lat_t)]
     cases += [gen_float_case(rng, 'normals') for _ in range(n_flt_n)]
     cases += [gen_float_case(rng, 'tangents') for _ in range(n_flt_t)]
+    cases += [gen_poly_case(rng) for _ in range(n_flt_t if n_poly is None else n_poly)]
     return cases
 
 
